@@ -127,9 +127,19 @@ ScoreAt(cfg, c, i) ==
 \* queue positions holding a stored key (the scan skips orphaned queue entries)
 LivePositions(c) == {i \in DOMAIN c.order : c.order[i] \in Dom(c)}
 
+\* as found (D9): the async TLRU scan compared with `score < f64::MAX`; hits^w overflows to +inf for a
+\* large weight from two hits on (NaN if the entry is past its ttl), and such an entry was never a
+\* candidate -- a cache full of them evicted nothing
+Unevictable(cfg, c, i) ==
+  /\ "async_tlru_overflow_unevictable" \in Quirks
+  /\ IsAsync(cfg) /\ cfg.policy = "tlru" /\ cfg.w = "5000"
+  /\ c.store[c.order[i]].hits >= 2
+
+Candidates(cfg, c) == {i \in LivePositions(c) : ~Unevictable(cfg, c, i)}
+
 \* all positions of minimal score: ties may be broken arbitrarily
 MinScorePositions(cfg, c) ==
-  LET P == LivePositions(c) IN
+  LET P == Candidates(cfg, c) IN
   {i \in P : \A j \in P : ScoreAt(cfg, c, i) <= ScoreAt(cfg, c, j)}
 
 -----------------------------------------------------------------------------
@@ -145,7 +155,7 @@ PopMode(cfg, phase) ==
 
 EvictOne(cfg, c, phase) ==
   CASE cfg.policy \in {"lfu", "arc", "tlru"} ->
-         IF LivePositions(c) = {} THEN {[c |-> c, ok |-> FALSE]}
+         IF Candidates(cfg, c) = {} THEN {[c |-> c, ok |-> FALSE]}
          ELSE {[c |-> RemoveKey(cfg, c, c.order[i]), ok |-> TRUE] : i \in MinScorePositions(cfg, c)}
     [] cfg.policy = "random" ->
          IF c.order = <<>> THEN {[c |-> c, ok |-> FALSE]}
